@@ -238,6 +238,9 @@ def run(ctx: Ctx):
 
     time_aliases(ctx, "R19.f")
 
+    ctx.rule("R19.g", "the generators bind no names of their own making besides the reserved ones: no run-time generated temporaries (sympy.cse / numbered_symbols / Dummy), and the name -> slot lookups and the writer's constants match whole identifiers only", floor=4)
+    check_generated_names(ctx, "R19.g")
+
     ctx.rule("R19.e", "print methods only interpolate text that went through the printer (so that sympy's reserved-word renaming applies to every symbol)", floor=8)
     for pr in ("numpy", "jax", "c", "ode"):
         for g in M.chains[pr]:
@@ -342,3 +345,34 @@ def raw_holes(v, safe_binders=frozenset()) -> list[str]:
 
     walk(v, frozenset(safe_binders))
     return out
+
+
+GENERATED_NAME_MAKERS = {"cse": "sympy.cse names its temporaries x0, x1, ... and only avoids names that occur in the one expression it is given", "numbered_symbols": "an endless supply of x0, x1, ... that knows nothing about the model's identifiers", "Dummy": "printed as _Dummy_<n>", "uniquely_named_symbol": "compared with one expression only", "symbols": None}
+
+
+def check_generated_names(ctx: Ctx, rule: str):
+    """(a) no function of the code generators / schemes creates symbols whose names are made up at run time (they can
+    coincide with an identifier of the model, which is then silently overwritten in the generated function);
+    (b) the C index functions compare whole names; (c) the writer prints Euler's number and pi in a form a model
+    identifier cannot capture."""
+    sm = ctx.sm
+    n = 0
+    for short in ("codegen/base.py", "codegen/python.py", "codegen/c.py", "codegen/jax.py", "schemes.py", "templates/python.py", "templates/c.py", "templates/jax.py"):
+        for f in sm.funcs_in(short):
+            n += 1
+            hits = []
+            for c in ast.walk(f.node):
+                if isinstance(c, ast.Call):
+                    tail = (dotted(c.func) or "").split(".")[-1]
+                    if tail in GENERATED_NAME_MAKERS and GENERATED_NAME_MAKERS[tail] is not None:
+                        hits.append((c, tail))
+            if hits:
+                c, tail = hits[0]
+                ctx.fail(rule, f.key(f"generated-names::{tail}"), f"{f.qualname} calls `{norm(c.func)}`: {GENERATED_NAME_MAKERS[tail]}; a temporary it introduces into the generated function can have the name of a state, parameter or intermediate of the model, which is then overwritten without any error", f.where(c))
+    ctx.ok(rule, "src/gotranx/codegen::generated-names", f"{n} generator / scheme / template functions create no run-time named symbols", "")
+    from .c04 import index_templates
+
+    index_templates(ctx, rule)
+    from .c11 import check_writer_rows
+
+    check_writer_rows(ctx, rule, only={"Exp1", "Pi"})
